@@ -270,6 +270,17 @@ def runOp (op : String) (args : List String) : String :=
   | "tsig.time", [now, ts, fudge] => match now.toNat?, ts.toNat?, fudge.toNat? with
     | some now, some ts, some fudge => showB (tsigTimeOk now ts fudge) | _, _, _ => "bad-op"
   | "canon", args => canonOp args
+  | "sig0.walk", [b] => match unhex b with
+    | some buf =>
+      if buf.length < 12 then "short" else
+      (match sigWalk buf with
+        | .ok w => s!"ok {w.bodyend} {w.sigstart} {w.sigend} {w.expire} {w.incept} {hex w.signer} {hex (sigHashInput buf w)}"
+        | .err => "err"
+        | .panic => "panic")
+    | none => "bad-op"
+  | "sig0.class", [b] => match unhex b with
+    | some buf => if buf.length < 12 then "short" else (match sigWalk buf with | .panic => "panic" | _ => "nopanic")
+    | none => "bad-op"
   | "lab.count", [t] => match unhex t with
     | some s => toString (countLabel s) | _ => "bad-op"
   | "lab.split", [t] => match unhex t with
